@@ -237,7 +237,9 @@ def run_doc(ctx: Ctx, d: specgen.Doc, n: int, layout: tuple[str, str | None]) ->
         rec.sample({"layout": list(layout), "hash_seeds": seeds, "files": len(base), "sample_digest": dict(list(base.items())[:3])})
 
 
-LAYOUTS = [("client1", None), ("acme.client1", None), ("acme.client1", "acme.core"), ("client1", "client1.core"), ("acme.apis.client1", "acme.shared.core")]
+LAYOUTS = [("client1", None), ("acme.client1", None), ("acme.client1", "acme.core"), ("client1", "client1.core"), ("acme.apis.client1", "acme.shared.core"),
+           # a sibling core whose directory name has the client's directory name as a string prefix
+           ("client1", "client1_core"), ("acme.shop", "acme.shop_core")]
 
 
 def mk_doc(ctx: Ctx) -> specgen.Doc:
